@@ -134,6 +134,11 @@ func (r *Run) schedule(me *gor) {
 		next := cs.runq[idx]
 		cs.runq = append(cs.runq[:idx:idx], cs.runq[idx+1:]...)
 		cs.cur = next
+		if next == me {
+			// the parking goroutine was made runnable again by the event that was just counted (its context was
+			// cancelled while it was about to block on Done): it simply goes on
+			return
+		}
 		next.wake <- wakeMsg{}
 	}
 	if me != nil {
